@@ -259,10 +259,32 @@ def skip_round_on_precommits():
 
 
 # per-scenario overrides of the scenario configuration and pseudo steps appended after TLC has followed the schedule
+
+def own_parts_after_commit_for_other():
+    """node 2 misses the round-0 proposal v, goes through round 0 with nil votes and becomes the proposer of round 1: its own
+    proposal w and the part of w wait on its internal queue when the last precommit for v arrives (+2/3 for a block it does not
+    have: the part set is re-created for v's parts header).  Its own part of w must not enter that part set; the genuine part
+    of v that follows must complete it and the height must commit (regression of 369a7e8: own parts were not verified)."""
+    v = H(0, 1)
+    s = S().start().all_internal(1)                                                            # node 1 proposes v
+    s.a('Peer', 3, P(0, v, 1)).a('Peer', 3, B(0, v)).all_internal(3)
+    for n in (1, 3):
+        s.a('Peer', n, V(0, 'pv', 4 - n, v)).a('Byz', n, V(0, 'pv', 4, v)).all_internal(n)     # 1,3: polka, lock, precommit v
+    s.timeout(2, 0, 3).all_internal(2)                                                         # node 2: no proposal, prevote nil
+    s.a('Peer', 2, V(0, 'pv', 1, v)).a('Byz', 2, V(0, 'pv', 4, NIL))                           # 2/3 any
+    s.timeout(2, 0, 5).all_internal(2)                                                         # precommit nil
+    s.a('Peer', 2, V(0, 'pc', 1, v)).a('Peer', 2, V(0, 'pc', 3, v))                            # 2/3 any, no majority
+    s.timeout(2, 0, 7)                                                                         # round 1: node 2 proposes w (queued)
+    s.a('Byz', 2, V(0, 'pc', 4, v))                                                            # +2/3 precommits for v: commit step, parts of v awaited
+    s.all_internal(2)                                                                          # own proposal and own part of w
+    s.a('Peer', 2, B(0, v)).all_internal(2)                                                    # the genuine part: commit
+    return s.steps
+
 CFG = {'many_rounds_then_restart': {'max_round': 4}, 'lock_survives_restart': {'crashes': 1, 'crash_set': [1]},
        'restart_in_height_2': {'crashes': 2, 'crash_set': [1, 2], 'max_height': 2, 'max_round': 1}}
 APPEND = {'many_rounds_then_restart': [['RealStartProbe', 2, 'realticker'], ['RealStartProbe', 1, 'realticker']]}
 
 ALL = {'restart_in_height_2': restart_in_height_2, 'skip_round_on_precommits': skip_round_on_precommits,
        'many_rounds_then_restart': many_rounds_then_restart, 'lock_survives_restart': lock_survives_restart, 'lock_unlock': lock_unlock, 'relock_and_pol_proposal': relock_and_pol_proposal,
-       'locked_without_proposal': locked_without_proposal, 'stale_polka_must_not_unlock': stale_polka_must_not_unlock}
+       'locked_without_proposal': locked_without_proposal, 'stale_polka_must_not_unlock': stale_polka_must_not_unlock,
+       'own_parts_after_commit_for_other': own_parts_after_commit_for_other}
